@@ -333,35 +333,43 @@ def numeric_layout(run, m, F, E):
         P = fl['minimum_length'].lin - nd - len(lead)
         pos = s2.is_ge0(P - 1)
         if pos is None:
-            und.append('%s: path does not decide whether padding is needed' % ctx)
-            continue
-        pad = []
-        if pos:
-            pc = padch_expected(s2, fl)
-            if pc is None:
-                und.append('%s: pad unit not decided' % ctx)
-                continue
-            pad = [('run', pc, P)]
-        digits = [('text', PtrV('DIGITS'), nd)]
-        leadseq = [('lit', lead)] if lead else []
-        if npad is None or (not npad and al is None and pos):
-            if pos:
-                und.append('%s: layout branch not decided' % ctx)
-                continue
-            npad, al = 1, AL['right']
-        if npad:
-            exp = leadseq + pad + digits
-            layout = 'zero-pad'
-        elif al == AL['left']:
-            exp = leadseq + digits + pad
-            layout = 'left'
+            # the code did not test whether the field is wider than its content on this path: both sub-cases are judged
+            subs = []
+            for want_pos in (True, False):
+                s3 = s2.clone()
+                if s3.assume_ge0(P - 1 if want_pos else -P):
+                    subs.append((s3, want_pos))
         else:
-            exp = pad + leadseq + digits
-            layout = 'right'
-        exp = [x for x in exp if not (x[0] == 'text' and s2.is_eq0(x[2]) is True)]
-        got = rendering(I, s2, s2.events)
-        cases.add((layout, tuple(lead), bool(pos)))
-        judge_seq(s2, got, exp, probs, und, '%s (%s layout)' % (ctx, layout), wit=[fl['minimum_length'].lin, nd])
+            subs = [(s2, pos)]
+        for (s2, pos) in subs:
+          pad = []
+          if True:
+            if pos:
+                pc = padch_expected(s2, fl)
+                if pc is None:
+                    und.append('%s: pad unit not decided' % ctx)
+                    continue
+                pad = [('run', pc, P)]
+            digits = [('text', PtrV('DIGITS'), nd)]
+            leadseq = [('lit', lead)] if lead else []
+            if npad is None or (not npad and al is None and pos):
+                if pos:
+                    und.append('%s: layout branch not decided' % ctx)
+                    continue
+                npad, al = 1, AL['right']
+            if npad:
+                exp = leadseq + pad + digits
+                layout = 'zero-pad'
+            elif al == AL['left']:
+                exp = leadseq + digits + pad
+                layout = 'left'
+            else:
+                exp = pad + leadseq + digits
+                layout = 'right'
+            exp = [x for x in exp if not (x[0] == 'text' and s2.is_eq0(x[2]) is True)]
+            got = rendering(I, s2, s2.events)
+            cases.add((layout, tuple(lead), bool(pos)))
+            judge_seq(s2, got, exp, probs, und, '%s (%s layout)' % (ctx, layout), wit=[fl['minimum_length'].lin, nd])
     if len(cases) < 20:
         und.append('only %d (layout, sign/prefix, padded?) cases explored' % len(cases))
     run.ob('R11.1', short(f.dem), False if probs else (None if und else True), probs[0] if probs else (und[0] if und else
